@@ -219,7 +219,7 @@ def from_doc(doc, reachable_only=True) -> dict:
                 "id": m["uuid"],
                 "source": m.get("source"),
                 "target": m.get("target"),
-                "affinity": m["affinity"],
+                "affinity": m.get("affinity", 0.0),  # the field's default
                 "score": m.get("score"),
             }
             for m in matches.values()
@@ -254,7 +254,7 @@ def from_doc(doc, reachable_only=True) -> dict:
     ):
         for ident in used:
             p = table[ident]
-            arr["scores"].append((f"{cls}.score", p["score"]))
+            arr["scores"].append((f"{cls}.score", p.get("score", 1)))
             for _tag, score in p.get("tags") or []:
                 arr["scores"].append(("PredictedTag.score", score))
     for p in root_preds:
